@@ -16,6 +16,9 @@ CHECKS = {
     "C06": dict(tech="TLC trace validation of traced-Merlin operation logs of both roles against the specification's operation schedule (order-preserving embedding), RoleSync invariant",
                 text="Every transcript operation of prover and verifier (label, payload identity, order, challenges, forks, RNG construction) recorded from the real code is matched by TLC against the schedule the specification derives for the statement and proof shape; returned transcripts must drive equal follow-up challenges.",
                 note="payload identity by value on toy curves; extra identical appends tolerated (C18 demands equality)", ref="5 C06"),
+    "C04": dict(tech="TLC model checking of EveryFieldWeighted/EveryFieldAbsorbed on the verifier model (MC_Tamper) + replay of every (shape, field, alteration) on the real code + TLC trace validation of exact verdicts on toy curves + exhaustive single-bit flips",
+                text="Every field of the proof is shown to carry a non-zero weight and to be absorbed before the next challenge in the model; every generated alteration of honest one- and two-phase proofs and every single-bit flip of their encodings must be rejected at decoding or verification (or decode to the identical object) on all curves.",
+                note="n <= 5 (9); 2 (9) encodings per curve for the bit sweep; toy verdicts exact", ref="5 C04"),
     "C07": dict(tech="TLC model checking of BatchIff/BatchCorrelated over F_7 (MC_Batch, with a failing shared-weight spec mutant) + replay of every batch pattern and order on the real batch_verify + TLC trace validation of the batch verdict from recorded weights on toy curves",
                 text="Every pattern of valid/tampered/bad-witness/+d/-d members up to the bound, in every order, and larger batches with one invalid member per position and an embedded +-d pair, run through the real batch_verify: the verdict must equal the conjunction of individual verdicts on the 256-bit curves and the specification's weighted-residual verdict on toy curves.",
                 note="patterns <= 3 (4) members, all orders for <= 3; batches of 6 (12); weights recovered from the seeded caller RNG", ref="5 C07"),
